@@ -1373,3 +1373,17 @@ Proof.
   - symmetry. apply Hiff. reflexivity.
   - apply Hiff. reflexivity.
 Qed.
+
+(* hypotheses of the list theorems: any permutation serves as set iteration order *)
+Example ex_state_list :
+  let sl := state_list ex_mdp None (fun _ _ => false) (@rev nat) pick_last 7 in
+  NoDup sl /\ (forall s, In s sl <-> Reach ex_mdp s) /\ sl = [2%nat; 1%nat; O].
+Proof.
+  destruct (state_list_spec_thm ex_mdp ex_U (fun _ _ => false) (@rev nat) pick_last 7 ex_fin ex_fuel
+              (fun l => Permutation_sym (Permutation_rev l))) as [H1 [H2 _]].
+  split; [exact H1 | split; [exact H2 | reflexivity]].
+Qed.
+Example ex_action_list : action_list ex_mdp [2%nat; 1%nat; O] None (fun _ _ => true) (@rev nat) = [O; 1%nat].
+Proof. reflexivity. Qed.
+Example ex_absorbing : m_abs (to_matrices ex_mdp [2%nat; O; 1%nat] [1%nat; O]) = [true; false; false].
+Proof. reflexivity. Qed.
